@@ -85,6 +85,10 @@ def run(ctx):
         kinds = [k for k, f, l in nodes if f is not None and f >= a and l <= b]
         if c["want"] not in kinds:
             viol("reading", "read as %s; a C compiler reads %s" % ([k for k in kinds[:3]], c["want"]))
+        elif c.get("exact") and not any(k == c["want"] and (f, l) == c["exact"] for k, f, l in nodes):
+            # the reading is C's only if its node has C's operands: `1 + (v) - x` is `(1 + (v)) - x`, not `1 + ((v) - x)`
+            viol("operands", "the %s of the reading covers %s; in C's reading it covers exactly the text [%d,%d) %r" % (
+                c["want"], [(f, l) for k, f, l in nodes if k == c["want"] and f is not None and f >= a and l <= b][:2], c["exact"][0], c["exact"][1], c["text"][c["exact"][0]:c["exact"][1]]))
     # ---- the name-catalog model (Catalog.lean, theorem catalog_decision_is_C) <-> the real cataloger + syntax-correlation strategy,
     # and both against C's scoping (the generator keeps the environment): random block-structured programs over a few names
     from gen.cataloggen import CatalogGen
